@@ -226,7 +226,7 @@ Lemma cursor_step_agree i1 i2 lenient ms o pos :
   cursor_step i1 lenient ms o pos = cursor_step i2 lenient ms o pos.
 Proof.
   intros Hl H. destruct o as [ |n|n| | |n|n]; cbn [cursor_step read_span] in *; rewrite <- ?Hl; try reflexivity.
-  - destruct (pos + n <=? ilen i1) eqn:E; [|reflexivity].
+  - destruct ((n =? 0) || (pos + n <=? ilen i1)) eqn:E; [|reflexivity].
     f_equal. f_equal. apply iread_ext. intros j Hj. apply (H pos n j eq_refl). lia.
   - f_equal. f_equal. apply iread_ext. intros j Hj. apply (H pos _ j eq_refl). lia.
 Qed.
@@ -252,7 +252,7 @@ Lemma cursor_step_covered inp lenient ms o pos :
   pos + covered inp lenient ms o pos <= snd (cursor_step inp lenient ms o pos).
 Proof.
   destruct o as [ |n|n| | |n|n]; cbn [cursor_step covered snd]; try lia.
-  - destruct (pos + n <=? ilen inp); cbn [snd]; lia.
+  - destruct ((n =? 0) || (pos + n <=? ilen inp)); cbn [snd]; lia.
   - destruct lenient.
     + destruct (pos + n <=? ms); cbn [snd]; [lia|].
       destruct ((I64MAX' <? n) && (U64MAX' <? pos + n)); cbn [snd]; lia.
@@ -316,7 +316,7 @@ Proof.
   destruct (H j E) as (n' & q' & Hin' & Hq').
   assert (Hcov : st = q /\ n = covered i1 lenient ms o q).
   { destruct o; cbn [read_span covered] in *; try discriminate.
-    - destruct (q + n0 <=? ilen i1); [|discriminate]. now injection Hspan as <- <-.
+    - destruct ((n0 =? 0) || (q + n0 <=? ilen i1)); [|discriminate]. now injection Hspan as <- <-.
     - now injection Hspan as <- <-. }
   destruct Hcov as (-> & ->).
   destruct (in_two _ _ _ Hin Hin') as [Heq | [(t1 & t2 & t3 & Ht) | (t1 & t2 & t3 & Ht)]].
